@@ -7,4 +7,5 @@ CONSTANTS
   Hs = {2, 3}
   Qs = {3, 4}
   MaxLen = 3
+  SrcMode = "abstract"
 INVARIANTS TypeOK SelfSupports SupportersSound OnePerMember DuplicatesDropped SubmitGate RefuseOnlyBelow AcceptedOnlyFiltered
